@@ -65,7 +65,9 @@ def rename_case(rng):
                     s.add((c["line"], c["col"]))
             tokens[b["path"]] = sorted(s)
         return {"op": "rename", "files": files, "old": "%s.%s.%s" % (u["pkg"], u["name"], old), "new": "%s.%s.%s" % (u["pkg"], u["name"], new),
-                "oldName": old, "newName": new, "tokens": tokens, "cls": [u["pkg"], u["name"]]}
+                "oldName": old, "newName": new, "tokens": tokens, "cls": [u["pkg"], u["name"]],
+                # one project in six through the real `coca analysis -p dir` + `coca refactor -R conf -d deps.json` (fresh processes)
+                "cli": rng.random() < 0.17}
     raise RuntimeError("no renameable project generated")
 
 
@@ -355,7 +357,8 @@ def unused_case(rng):
         files[p] = t
         expected[p] = e
         ndrop += n
-    return {"op": "unused", "files": files, "expected": expected, "ndrop": ndrop}
+    # one directory in eight through the real `coca refactor -m move.config -p dir` (twice, fresh processes)
+    return {"op": "unused", "files": files, "expected": expected, "ndrop": ndrop, "cli": rng.random() < 0.12}
 
 
 def gen_c06(rng, tier):
